@@ -408,6 +408,23 @@ fn main() {
             }
         }
     }
+    // sequences of the largest valid requests (which any allocator refuses): sums of their sizes leave
+    // the 64-bit range after two or three of them - the build has overflow checks on
+    let huge: Vec<Req> = full.iter().copied().filter(|q| q.align == 1 && (q.size > 1 << 62 || q.new_size > 1 << 62) && q.ret == 0).collect();
+    for a in &huge {
+        for b in &huge {
+            for c in &huge {
+                index += 1;
+                if cli.mine(index) {
+                    check(&r, &[*a, *b, *c], 1, index);
+                }
+            }
+            index += 1;
+            if cli.mine(index) {
+                check(&r, &[*a, *b], 0, index);
+            }
+        }
+    }
     let tiny: Vec<Req> = reduced.iter().copied().filter(|q| q.size == 8 && q.align == 1 && (q.op != 2 || q.new_size == 24)).collect();
     let d3_phases: &[usize] = if cli.thorough { &[0, 1, 2, 3] } else { &[0, 2] };
     for a in &tiny {
@@ -423,6 +440,7 @@ fn main() {
         }
     }
     r.set_bounds(json!({
+        "huge_requests": huge.len(), "huge_sequences": "all pairs and triples of requests of about isize::MAX bytes (build with overflow checks)",
         "depth1_requests": full.len(), "depth2_alphabet": reduced.len(), "depth3_alphabet": tiny.len(),
         "layouts_full": layouts(true).iter().map(|(s, a)| format!("{s}/{a}")).collect::<Vec<_>>(),
         "returns": ["null", "0x1000", "0x7fff00002000"], "phases": PHASES, "depth3_phases": d3_phases,
